@@ -110,6 +110,9 @@ func (vc *VC) ghostAt(fr *Frame, n *Node, where, callee string, ord int, res ...
 		if where == "before" || where == "after" {
 			sc.pos = fr.curPos
 		}
+		if where == "exit" && fr.exitResults != nil {
+			vc.bindResultNames(sc, fr.fn, fr.exitResults)
+		}
 		// actual arguments of the anchoring call, by the callee's parameter names: arg_<name>
 		for k, v := range fr.ghostArgs {
 			sc.names["arg_"+k] = v
@@ -178,6 +181,7 @@ func (vc *VC) ghostAt(fr *Frame, n *Node, where, callee string, ord int, res ...
 }
 
 func (vc *VC) atReturn(fr *Frame, n *Node, results []string, pos token.Pos) {
+	fr.exitResults = results
 	vc.ghostAt(fr, n, "exit", "", 0)
 	fc := fr.fc
 	if fc != nil {
@@ -322,6 +326,10 @@ func (vc *VC) computeFrameSpec(fr *Frame, n *Node) *frameSpec {
 				v, err := esc.eval(e)
 				if err != nil || v.LV == nil {
 					vc.specError(c, fmt.Errorf("modifies %s: not a location (%v)", loc, err))
+					continue
+				}
+				if v.LV.kind == lvGlobal {
+					fs.allowedAll[v.LV.sv] = true
 					continue
 				}
 				for _, nm := range vc.lvMapNames(v.LV) {
@@ -500,6 +508,8 @@ func (p *Prog) buildVC(fn *ssa.Function, opts VerifyOpts) (*VC, *Node, int) {
 			break
 		}
 	}
+	vc.errTextAxioms()
+	vc.instantiateLemmas()
 	if os.Getenv("KVC_DEBUG") != "" {
 		for k, m := range loopMods {
 			var names []string
